@@ -88,6 +88,13 @@ Theorem C01_date_text : forall y m d,
 Proof. exact date_roundtrip. Qed.
 Print Assumptions C01_date_text.
 
+(* decimals: what the decoder stores (decimal.NewFromString, exponent bound, String()) denotes the
+   same number as the text that was encoded *)
+Theorem C01_decimal_numeric : forall s s', dec_normalise s = Some s' ->
+  exists a b, dec_parse s = Some a /\ dec_parse s' = Some b /\ dec_eq a b.
+Proof. exact dec_normalise_numeric. Qed.
+Print Assumptions C01_decimal_numeric.
+
 (* the former spelling of dates (finding 8, fixed) did not read back *)
 Theorem C01_date_v0_refuted : date_from_string (date_string_v0 5 1 2) = None.
 Proof. exact date_v0_refuted. Qed.
